@@ -3,6 +3,7 @@ import NfcVerif.Lemmas.Mac
 import NfcVerif.Lemmas.Auth
 import NfcVerif.Lemmas.AuthHist
 import NfcVerif.Lemmas.AuthCard
+import NfcVerif.Lemmas.AuthNdef
 /-!
 # C20 - Tag authentication and MAC-protected reads cannot be fooled
 
@@ -547,5 +548,109 @@ example : ntagAuthenticate [] (.ok [0]) = .ok false := by decide
 example : ntagAuthenticate [] (.ok []) = .ok false := by decide
 example : ntagAuthenticate [] (.ok [0, 0, 0]) = .ok false := by decide
 example : ntagAuthenticate [] (.ok [0, 0]) = .ok true := by decide
+
+/-! ## the public attribute `tag.ndef` around `authenticate()` (`Model/AuthNdef.lean`) -/
+
+open NfcVerif.AuthNdef NfcVerif.AuthNdef.NRW
+
+/-- Every octet of `tag.ndef.octets` obtained after a successful `authenticate()` was covered by a
+MAC verified in THAT session (the C20-r3m3 class).  Take any history of calls on one FelicaLite /
+FelicaLiteS tag object over any air interface: `pre` (anything - in particular `tag.ndef` looked at
+before the authentication, answered by falsified frames and cached in the tag object), then
+`authenticate(pw)` with challenge `rc` returning True, then calls `mid` none of which is or contains
+an authentication (`Quiet`: `tag.ndef`, `has_changed`, `format`, `read_with_mac`, `write_with_mac`,
+plain reads and writes, anything happening to the world), then `tag.ndef` returning data `d`.  Then
+`d` is `VerifiedNdef` under the session key derived from `pw` and THIS challenge: the attribute
+block that gives the length and every data block of `d` came out of `read_with_mac` accepting a
+frame under that session - nothing cached before the authentication, nothing read without MAC.
+Both behaviours of a failed MAC (`noneOk`) and of a failed authentication (`forget`) are covered. -/
+theorem ndef_after_auth_is_mac_verified {σ : Type} (C : Cipher) (forget noneOk : Bool) (x : Air σ) (idm : Bytes) (liteS : Bool)
+    (pre mid post : List (NOp σ)) (pw rc d : Bytes) (n0 : NSt σ) (hq : ∀ op ∈ mid, Quiet op)
+    (ha : (nrun C forget noneOk x idm liteS (pre ++ .auth pw rc :: (mid ++ .ndef :: post)) n0).1[pre.length]?
+      = some (.ok (.bool true)))
+    (hn : (nrun C forget noneOk x idm liteS (pre ++ .auth pw rc :: (mid ++ .ndef :: post)) n0).1[pre.length + 1 + mid.length]?
+      = some (.ok (.data (some d)))) :
+    ∃ key sk, liteKey pw = .ok key ∧ sessionKey C key rc = .ok sk ∧ VerifiedNdef C idm ⟨sk, rc.take 8⟩ d := by
+  -- the authentication
+  rw [nrun_result_at] at ha
+  injection ha with ha
+  rcases hs : nstep C forget noneOk x idm liteS (.auth pw rc) (nrun C forget noneOk x idm liteS pre n0).2 with ⟨r, n2⟩
+  rw [hs] at ha
+  simp only at ha
+  subst ha
+  simp only [nstep] at hs
+  obtain ⟨b, n2', h2, k2⟩ := nbind_ok.mp hs
+  obtain ⟨hb, hn2⟩ := npure_ok.mp k2
+  injection hb with hb
+  subst hb hn2
+  obtain ⟨hnd, hum, key, sk, hkey, hsk, hrd⟩ := auth_true C forget x idm h2
+  have hj : J C idm ⟨sk, rc.take 8⟩ n2' := ⟨hum, by rw [hrd], fun d hd => by rw [hnd] at hd; cases hd⟩
+  -- the quiet calls and the final tag.ndef
+  have hsplit : pre ++ NOp.auth pw rc :: (mid ++ NOp.ndef :: post) = (pre ++ [NOp.auth pw rc] ++ mid) ++ NOp.ndef :: post := by simp
+  have hlen : pre.length + 1 + mid.length = (pre ++ [NOp.auth pw rc] ++ mid).length := by simp; omega
+  rw [hsplit, hlen, nrun_result_at] at hn
+  injection hn with hn
+  have hstate : (nrun C forget noneOk x idm liteS (pre ++ [NOp.auth pw rc] ++ mid) n0).2
+      = (nrun C forget noneOk x idm liteS mid n2').2 := by
+    rw [nrun_append, nrun_append, nrun_cons, nrun_nil]
+    simp only [nstep]
+    rw [hs]
+  rw [hstate] at hn
+  have hj3 := nrun_J C forget noneOk x idm liteS _ mid hq n2' hj
+  obtain ⟨_, hv⟩ := ndefProp_J C noneOk x idm (liteS := liteS) hj3
+  refine ⟨key, sk, hkey, hsk, hv d ?_⟩
+  simp only [nstep] at hn
+  rw [nbind_apply] at hn
+  rcases e0 : ndefProp C noneOk x idm liteS (nrun C forget noneOk x idm liteS mid n2').2 with ⟨r0, m0⟩
+  rw [e0] at hn
+  cases r0 with
+  | error e => simp at hn
+  | ok v =>
+    simp only [npure_apply] at hn
+    injection hn with hn
+    injection hn with hn
+    rw [hn]
+
+/-- a successful `authenticate()` (FelicaLite and FelicaLiteS) leaves no cached NDEF object, switches the
+NDEF read service to `read_with_mac` and stores the session of this call's challenge - in any state -/
+theorem auth_drops_ndef_cache {σ : Type} (C : Cipher) (forget : Bool) (x : Air σ) (idm pw rc : Bytes) (liteS : Bool) (n n' : NSt σ)
+    (h : auth C forget x idm liteS pw rc n = (.ok true, n')) :
+    n'.ndef = none ∧ n'.useMac = true ∧
+      ∃ key sk, liteKey pw = .ok key ∧ sessionKey C key rc = .ok sk ∧ n'.st.rd = ⟨some ⟨sk, rc.take 8⟩, true⟩ :=
+  auth_true C forget x idm h
+
+/-- a FeliCa Lite card for the identity cipher, NDEF formatted, message 01 02 03 -/
+def card2 : Card :=
+  Card.ofBlocks false idm0 [(0, [0x10, 4, 1, 0, 13, 0, 0, 0, 0, 0, 1, 0, 0, 3, 0, 0x26]), (1, [1, 2, 3] ++ zeros 13),
+    (0x80, zeros 16), (0x82, idm0 ++ zeros 8), (0x87, zeros 16), (0x88, [0xFF, 0xFF, 0xFF, 1] ++ zeros 12)] false false
+
+/-- non-vacuity: `tag.ndef` (read without MAC and cached), `authenticate`, `tag.ndef` (read with MAC) -/
+example : (nrun idC false false (honest idC) idm0 false ([.ndef] ++ .auth [] (List.replicate 16 7) :: ([] ++ .ndef :: []))
+    ⟨⟨Reader.init, card2, []⟩, none, false, true⟩).1
+    = [.ok (.data (some [1, 2, 3])), .ok (.bool true), .ok (.data (some [1, 2, 3]))] := by decide +kernel
+
+/-- the same calls while the first answers are falsified in transit (an air interface that flips a bit
+of block 1 in the second exchange, the unprotected read of the data block): the application sees the falsified data before the
+authentication and the card's data after it -/
+def falsifier : Air (Card × Nat) := fun w cmd =>
+  let r := w.1.command idC cmd
+  ((if w.2 = 1 then r.1.map (fun f => f.set 13 (f.getD 13 0 ^^^ 4)) else r.1), (r.2, w.2 + 1))
+
+example : (nrun idC false false falsifier idm0 false [.ndef, .auth [] (List.replicate 16 7), .ndef]
+    ⟨⟨Reader.init, (card2, 0), []⟩, none, false, true⟩).1
+    = [.ok (.data (some [5, 2, 3])), .ok (.bool true), .ok (.data (some [1, 2, 3]))] := by decide +kernel
+
+/-- The NDEF cache of `nfc.tag.Tag` for every tag type (used for NTAG21x, which has no MAC): in any
+history, right after an `authenticate()` - or `protect()` / `format()` - that returned True the next
+`tag.ndef` READS THE TAG and hands out exactly what that read gave, whatever was cached before
+(data read before the authentication, possibly falsified, or before the pages were protected). -/
+theorem ndef_read_again_after_authenticate (pre post : List TagCache.COp) (c f : Option Bytes) (op : TagCache.COp)
+    (hop : op = .auth (.ok true) ∨ op = .protect (.ok true) ∨ op = .format (.ok true)) :
+    (TagCache.crun (pre ++ op :: .ndef f :: post) c).1[pre.length + 1]? = some ⟨.ok f, true⟩ :=
+  TagCache.fresh_after_success pre post c f op hop
+
+example : (TagCache.crun [.ndef (some [1]), .ndef (some [2]), .auth (.ok false), .ndef (some [3]), .auth (.ok true), .ndef (some [4])] none).1
+    = [⟨.ok (some [1]), true⟩, ⟨.ok (some [1]), false⟩, ⟨.ok none, false⟩, ⟨.ok (some [1]), false⟩, ⟨.ok none, false⟩,
+       ⟨.ok (some [4]), true⟩] := by decide
 
 end NfcVerif.C20
